@@ -43,6 +43,8 @@ def feasible_world(w):
 def mon_c05(run, world):
     bad = []
     timeout = world["flags"]["loop_timeout"]
+    if run["status"] == "solver-licence-limit":
+        return bad
     if run["status"] != "ended":
         bad.append("simulate() did not return: %s %s" % (run["status"], (run.get("error") or "")[:200]))
         return bad
@@ -121,3 +123,9 @@ def run(ctx):
             if r["status"] in ("livelock", "wallclock"):
                 ctx.known("F8", k["what_fails"])
             ctx.cov["input_distribution"]["F8_replay_status"] = r["status"]
+        if k.get("status") == "known" and k.get("property") == "C05" and k.get("id") == "F20":
+            w = json.load(open(os.path.join(core.ROOT, k["witness"])))
+            r = simcommon.run_worlds([w], jobs=1, chunk=1)[0]
+            if r["status"] == "exception" and "execution_strategy" in (r.get("error") or "") or "'NoneType' object has no attribute 'runtime'" in (r.get("error") or ""):
+                ctx.known("F20", k["what_fails"])
+            ctx.cov["input_distribution"]["F20_replay_status"] = r["status"]
